@@ -3,7 +3,7 @@
 <out-dir>/<n>/patch.diff as selftest/quiet/q-<Cxx>-<n>.{diff,json} (expected: every check silent)."""
 import json, os, shutil, sys
 VERIF = os.path.dirname(os.path.dirname(os.path.abspath(__file__)))
-ALL = ["C01","C02","C03","C04","C05","C06","C09","C10","C11","C12","C14","C15","C17","C18","C19","C20"]
+ALL = ["C01","C02","C03","C04","C05","C06","C07","C08","C09","C10","C11","C12","C13","C14","C15","C16","C17","C18","C19","C20"]
 out, prop = sys.argv[1], sys.argv[2]
 tag = sys.argv[3] if len(sys.argv) > 3 else "q"
 for n in sorted(os.listdir(out)):
